@@ -7,7 +7,7 @@ use crate::world::Ctx;
 
 /// Profiles: 1 = uniform light, 2 = delay after claim / before release (hold claims longer),
 /// 3 = delay wakers and blockers, 4 = delay the writer around the cancellation flag,
-/// 5 = heavy everywhere.
+/// 5 = heavy everywhere, 6 = light at the failpoints, slow event callback (see `event_delay`).
 pub fn visit(ctx: &Ctx, site: Site, profile: u64, seed: u64, n: u64) {
     let th = ctx.log.th() as u64;
     let r = mix(seed ^ (th << 48), n);
@@ -38,5 +38,43 @@ pub fn visit(ctx: &Ctx, site: Site, profile: u64, seed: u64, n: u64) {
         }
         2 => crate::sync::yield_now(),
         _ => crate::sync::sleep_us(50 + (r >> 16) % 450),
+    }
+}
+
+/// Delay inside the user's event callback for deletion / interning events (the callback runs in
+/// the middle of salsa's clean-up of a discarded struct or of a slot reuse). Off unless a
+/// concurrent case is running: shuttle gets a scheduling point, OS threads a seeded delay.
+pub fn event_delay(ctx: &Ctx) {
+    if !crate::sink::EV_DELAY.load(std::sync::atomic::Ordering::Relaxed) {
+        return;
+    }
+    #[cfg(feature = "shuttle")]
+    {
+        let _ = ctx;
+        crate::sync::yield_now();
+    }
+    #[cfg(not(feature = "shuttle"))]
+    {
+        use std::sync::atomic::Ordering;
+        let prof = crate::sink::FP_PROFILE.load(Ordering::Relaxed);
+        if prof == 0 {
+            return;
+        }
+        let n = crate::sink::FP_VISITS.fetch_add(1, Ordering::Relaxed);
+        let th = ctx.log.th() as u64;
+        let r = mix(crate::sink::FP_SEED.load(Ordering::Relaxed) ^ (th << 48) ^ 0x5eed, n);
+        if prof == 6 {
+            // "slow callback" profile: the thread that is cleaning up sleeps long enough for the
+            // other threads to get through several requests
+            if r % 2 == 0 {
+                crate::sync::sleep_us(100 + (r >> 16) % 700);
+            }
+            return;
+        }
+        match r % 8 {
+            0 | 1 => crate::sync::yield_now(),
+            2 => crate::sync::sleep_us(20 + (r >> 16) % 300),
+            _ => {}
+        }
     }
 }
